@@ -116,7 +116,10 @@ def pair(kind, fn, a, b, kw, T, nt, only=None, force_nt=False):
             "meta": {"fn": fn, "T": T, "only": only, "force_nt": force_nt}, "nt": nt}
 
 
-DEVS = [0, 0, 0, 0.25, -0.25, 0.75, -0.75, 1, -1, 7, 11.75, 12, -12, 12.25]
+# incl. deviations 0.05 cent either side of the default 50-cent / half-semitone
+# thresholds: far outside binary64 rounding, inside any coarser rounding of pitch
+DEVS = [0, 0, 0, 0.25, -0.25, 0.4995, -0.4995, 0.5005, 0.75, -0.75, 1, -1, 7, 11.75, 12,
+        -12, 12.25]
 
 
 def pitch_instances(r):
@@ -215,7 +218,8 @@ def pitch_instances(r):
     eiv = iv + np.array([[r.choice([0, 1, -1, 2]) / Q] * 2 for _ in iv]).reshape(-1, 2)
     eiv = np.maximum(eiv, 0.0)
     eiv[:, 1] = np.maximum(eiv[:, 1], eiv[:, 0] + 1 / Q)
-    facn = r.choice([2.0, 0.5, 2.0 ** (3 / 12)])
+    facn = r.choice([2.0, 0.5, 2.0 ** (3 / 12), 2.0 ** (2 / 12), 2.0 ** (-1 / 12), 1.2345,
+                     1.37])
     kw = tasks.draw_params(r, {"offset_ratio": [0.2, None], "strict": [False, True]})
     out.append(pair("factor", "transcription.precision_recall_f1_overlap",
                     (iv, hz, eiv, ehz), (iv, hz * facn, eiv, ehz * facn), kw,
